@@ -20,8 +20,14 @@ FAULTS = {  # fault class -> is the module left half-rewritten when the fault is
 HALF_BASES = {"InstBundleElabPass": "pairp", "ResolvePortRefs": "ref", "BundleFlattener": "bun", "ArrayFlattener": "arrp"}
 FEATS = ["ref", "slc", "nc", "arrp", "bun", "pairp"]
 
-# universe layout (indices)
-L0, L1, S, BAD, MID, TOP, U0, UT, SH1, SH2 = range(10)
+# universe layout (indices); NEW = the module in which the failure occurs, built anew (without the fault)
+L0, L1, S, BAD, MID, TOP, U0, UT, SH1, SH2, NEW = range(11)
+
+# what ends a pass body: the key of harness/impl/c08.py EXC -> exception class name.  Only "exc" is an `Exception`.
+EXC_CLS = {"exc": "RuntimeError", "kbd": "KeyboardInterrupt", "exit": "SystemExit", "outcome": "Outcome",
+           "cancel": "CancelledError", "genexit": "GeneratorExit"}
+BASE_CLS = set(EXC_CLS.values()) - {"RuntimeError"}
+GEN_KIND_OF = {"RuntimeError": 0, "KeyboardInterrupt": 2, "SystemExit": 3, "Outcome": 4, "CancelledError": 5, "GeneratorExit": 6}
 
 
 # ------------------------------------------------------------------------------------------ running histories
@@ -86,12 +92,13 @@ class Interner:
             idx = self.names.get(None if nm == "_anon_" else nm)
             if idx is not None:
                 return f"(CCycle {cn(idx)})"
-        return f"(CE {self.code(e)})"
+        return f"(CE {cz(self.code(e))})"
 
     def code(self, e):
+        """error identity (class, message); negative for the classes that are no `Exception` (Model/C08PassFail.v code_base)"""
         key = (e["cls"], e["msg"])
         if key not in self.tab:
-            self.tab[key] = len(self.tab) + 1
+            self.tab[key] = (len(self.tab) + 1) * (-1 if e["cls"] in BASE_CLS else 1)
         return self.tab[key]
 
 
@@ -161,15 +168,15 @@ def c_history(static, job, out, fresh, meta):
         fails = []
         if st["elab"] == "custom" and mt.get("inject", True):
             for ps in job["custom"]:
-                code = it.code(dict(cls="RuntimeError", msg=ps["msg"]))
-                fails.append(f"({cn(custom_pid(job, ps['key']))}, {cn(ps['target'])}, {code})")
+                code = it.code(dict(cls=EXC_CLS[ps.get("exc", "exc")], msg=ps["msg"]))
+                fails.append(f"({cn(custom_pid(job, ps['key']))}, {cn(ps['target'])}, {cz(code)})")
         call = (f"{{| c_kids := {kids}; c_passes := {passes}; c_tops := {clist(st['tops'], cn)}; "
                 f"c_fail := {clist(fails)}; c_export := {cbool(st['entry'] != 'elaborate')} |}}")
         done = []
         for key, ms in r["done"].items():
             pid = pnames.index(key) if key in pnames else custom_pid(job, key)
             done += [cpair(pid, m) for m in ms]
-        failed = clist(sorted(r["failed"].items()), lambda kv: f"({cn(int(kv[0]))}, {it.code(kv[1])})")
+        failed = clist(sorted(r["failed"].items()), lambda kv: f"({cn(int(kv[0]))}, {cz(it.code(kv[1]))})")
         pend_empty = all(not v for v in r["pend"].values())
         obs = (f"{{| o_out := {c_iout(r, it)[6:-1]}; o_pend_empty := {cbool(pend_empty)}; o_done := {clist(done)}; "
                f"o_failed := {failed}; o_elab := {clist(r['elab'], cn)} |}}")
@@ -177,7 +184,7 @@ def c_history(static, job, out, fresh, meta):
         bad = "None" if mt.get("bad") is None else f"(Some ({cn(mt['bad'][0])}, {cbool(mt['bad'][1])}))"
         search = "None"
         if mt.get("search") and "err" in r and not it.err(r["err"]).startswith("(CCycle"):
-            search = f"(Some {it.code(r['err'])})"
+            search = f"(Some {cz(it.code(r['err']))})"
         steps.append(f"{{| st_call := {call};\n    st_obs := {obs};\n    st_retry_of := {retry}; st_fresh := {c_iout(fresh.get(k), it)}; "
                      f"st_bad := {bad}; st_search := {search}; st_carry := {cbool(bool(mt.get('carry')))} |}}")
     return clist(steps), it
@@ -238,25 +245,36 @@ def call(tops, entry="to_proto", elab="default"):
     return dict(op="call", entry=entry, tops=tops, elab=elab)
 
 
-def mk_history(r, kind, cont, bad=None, param=None):
-    """kind = raiser | half | fault ; cont = name of the continuation; returns (job, meta)"""
+def parents_of(mods, x):
+    return [i for i, m in enumerate(mods) if i != x and any(ci == x for _, ci in m["kids"])]
+
+
+def mk_history(r, kind, cont, bad=None, param=None, exc="exc"):
+    """kind = raiser | half | fault ; cont = names of the continuations; exc = what ends the injected pass body (EXC_CLS);
+    returns (job, meta, info)"""
     bad = bad if bad is not None else r.choice([L0, BAD, BAD, TOP])
     custom, fault, need = [], None, None
     if kind == "raiser":
         at, rewrites = param if param else (r.randint(0, 10), r.random() < 0.6)
-        custom = [dict(key="X0", kind="raiser", at=at, target=bad, rewrites=rewrites, msg="injected by a custom pass")]
+        custom = [dict(key="X0", kind="raiser", at=at, target=bad, rewrites=rewrites, msg="injected by a custom pass", exc=exc)]
         half = False
     elif kind == "half":
         base, k = param if param else (r.choice(sorted(HALF_BASES)), r.choice([1, 1, 2]))
         need = HALF_BASES[base]
-        custom = [dict(key="X0", kind="half", base=base, target=bad, k=k, msg="injected part-way through a rewriting pass")]
+        custom = [dict(key="X0", kind="half", base=base, target=bad, k=k, msg="injected part-way through a rewriting pass", exc=exc)]
         half = True
     else:
         fault = param if param else r.choice(sorted(FAULTS))
         if fault == "anonmissing":
             bad = BAD
         half = FAULTS[fault]
+        exc = "exc"
     mods = universe(r, bad, fault, need)
+    # the failing module built anew: same children, same content, without the fault (what "repair" means for a module
+    # that is refused for good); nothing instantiates it until a `retarget` edit
+    new = copy.deepcopy(mods[bad])
+    new.update(name="NEW", fault=None, kids=[kc for kc in new["kids"] if kc[1] != bad])
+    mods.append(new)
     elab0 = "custom" if custom else "default"
     first = call([TOP], r.choice(["to_proto", "to_proto", "elaborate"]), elab0)
     steps = [first]
@@ -269,36 +287,55 @@ def mk_history(r, kind, cont, bad=None, param=None):
             meta[len(steps) - 1] = m
 
     repaired = [False]
+    retargeted = [False]
+    same = lambda: 0 if not repaired[0] and not retargeted[0] else None
     for c in cont:
         if c == "retry":
-            add(call([TOP], first["entry"], elab0), retry_of=0 if not repaired[0] else None)
+            add(call([TOP], first["entry"], elab0), retry_of=same())
         elif c == "retry_export":
-            add(call([TOP], "to_proto", elab0), retry_of=0 if not repaired[0] else None)
+            add(call([TOP], "to_proto", elab0), retry_of=same())
         elif c == "retry_default":        # the injected fault is gone (default pass list); for design faults same as retry
-            add(call([TOP], "to_proto", "default"), retry_of=(0 if kind == "fault" and not repaired[0] else None))
+            add(call([TOP], "to_proto", "default"), retry_of=(same() if kind == "fault" else None))
         elif c == "repair":
             if kind == "fault" and fault != "cycle":
                 steps.append(dict(op="edit", mod=bad, what=fault))
                 repaired[0] = True
             else:
                 steps.append(dict(op="edit", mod=bad, what="addsig"))
+        elif c in ("retarget", "retarget_one"):
+            # the module is refused for good: point the instances of its parents (all of them / the first one) at NEW
+            ps = parents_of(mods[:NEW], bad)
+            for pi in (ps if c == "retarget" else ps[:1]):
+                steps.append(dict(op="edit", what="retarget", mod=pi, old=bad, to=NEW))
+                retargeted[0] = True
+        elif c == "edit_sibling":         # a healthy module of the failed design gets more content and is elaborated on its own
+            steps.append(dict(op="edit", mod=S, what="addref"))
+            add(call([S], "to_proto", "default"))
+        elif c == "new_top":              # the re-created module elaborated on its own
+            add(call([NEW], "to_proto", "default"))
         elif c == "unrelated":
             add(call([UT], "to_proto", "default"))
         elif c == "share":
             add(call([SH1], "to_proto", "default"))
         elif c == "share_bad":
             add(call([SH2], "to_proto", "default"))
+        elif c == "share_bad_elab":       # elaborate only: a design with a refused module must not "succeed" either
+            add(call([SH2], "elaborate", "default"))
         elif c == "both":
             add(dict(call([UT, TOP], "to_proto", "default"), aslist=True))
         elif c == "leafs":
             add(dict(call([L1, S], "elaborate", "default"), aslist=True))
     job = dict(mods=mods, custom=custom, steps=steps)
-    return job, meta, dict(kind=kind, cont=list(cont), bad=bad, fault=fault, param=param)
+    return job, meta, dict(kind=kind, cont=list(cont), bad=bad, fault=fault, param=param, exc=exc)
 
 
 CONTS = [["retry"], ["retry", "retry_export"], ["retry_default"], ["repair", "retry_default"], ["unrelated"], ["share"],
          ["share_bad"], ["retry", "repair", "retry_default", "unrelated"], ["unrelated", "retry_default", "share", "share_bad"],
-         ["both"], ["leafs", "retry"]]
+         ["both"], ["leafs", "retry"],
+         ["retarget", "retry_default", "share_bad"], ["retarget", "retry", "new_top"], ["share_bad", "retarget", "share_bad", "retry_export"],
+         ["retarget_one", "retry_default", "share_bad_elab"], ["new_top", "retry"]]
+# the ones that re-target
+RT_CONTS = [c for c in CONTS if any(x.startswith("retarget") for x in c)]
 
 
 def evaluate(tag, static, items, chunk=40):
@@ -367,42 +404,59 @@ def report(run, stream, items, outs, fresh, res, limit=3, keep_order=False):
 
 # ------------------------------------------------------------------------------------------ generator histories
 GEN_SHAPE = [[], [0], [1, 0], [3], [2, 4]]        # G3 calls itself; G4 = {G2, G4}: a cycle reached after work
+GEN_KINDS = [0, 0, 0, 1, 2, 2, 3, 4, 5, 6]        # how a body ends when it does not return a Module (Model/C08GenFail.v)
 
 
 def gen_jobs(r, n, maxlen):
-    """Each generator body raises (after a fixed number of its nested calls) until the designer corrects it at some step,
-    and returns from then on: a body that has once returned keeps returning, so cached results never hide a change."""
+    """Each generator body fails (after a fixed number of its nested calls, in a fixed way: an Exception, a non-Module
+    result, or one of five BaseExceptions that are no Exception) until the designer corrects it at some step, and returns
+    from then on: a body that has once returned keeps returning, so cached results never hide a change.  G0..G2 may be
+    declared with enable_cache=False (G3, G4 are cyclic: without the cache they would recurse for ever)."""
     jobs = []
     for _ in range(n):
         ln = r.randint(2, maxlen)
         fixed_at = {k: r.choice([0, 0, 0, r.randint(1, ln), r.randint(1, ln + 1)]) for k in range(len(GEN_SHAPE))}
-        after = {k: r.randint(0, len(GEN_SHAPE[k])) for k in range(len(GEN_SHAPE))}
+        after = {k: [r.randint(0, len(GEN_SHAPE[k])), r.choice(GEN_KINDS)] for k in range(len(GEN_SHAPE))}
+        unc = [k for k in (0, 1, 2) if r.random() < 0.2]
         steps = []
         for j in range(ln):
             key = r.choice([0, 1, 2, 2, 3, 4])
             steps.append(dict(key=key, modes={str(k): after[k] for k in fixed_at if j < fixed_at[k]}))
-        jobs.append(dict(gens=GEN_SHAPE, steps=steps))
+        jobs.append(dict(gens=GEN_SHAPE, uncached=unc, steps=steps))
     return jobs
 
 
 def gen_corpus():
-    boom = {"0": 0}
-    return [dict(gens=GEN_SHAPE, steps=[dict(key=0, modes=boom), dict(key=0, modes=boom), dict(key=0, modes={})]),   # DESIGN 7 #11
-            dict(gens=GEN_SHAPE, steps=[dict(key=2, modes=boom), dict(key=2, modes={}), dict(key=1, modes={})]),
-            dict(gens=GEN_SHAPE, steps=[dict(key=2, modes={"2": 1}), dict(key=0, modes={}), dict(key=2, modes={})]),
-            dict(gens=GEN_SHAPE, steps=[dict(key=3, modes={}), dict(key=3, modes={}), dict(key=0, modes={})]),
-            dict(gens=GEN_SHAPE, steps=[dict(key=4, modes={}), dict(key=2, modes={}), dict(key=4, modes={})]),
-            dict(gens=GEN_SHAPE, steps=[dict(key=1, modes={"1": 1}), dict(key=1, modes={"1": 1}), dict(key=1, modes={})])]
+    boom = {"0": [0, 0]}
+    kbd = {"0": [0, 2]}
+    G = lambda steps, unc=(): dict(gens=GEN_SHAPE, uncached=list(unc), steps=steps)
+    return [G([dict(key=0, modes=boom), dict(key=0, modes=boom), dict(key=0, modes={})]),   # DESIGN 7 #11
+            G([dict(key=2, modes=boom), dict(key=2, modes={}), dict(key=1, modes={})]),
+            G([dict(key=2, modes={"2": [1, 0]}), dict(key=0, modes={}), dict(key=2, modes={})]),
+            G([dict(key=3, modes={}), dict(key=3, modes={}), dict(key=0, modes={})]),
+            G([dict(key=4, modes={}), dict(key=2, modes={}), dict(key=4, modes={})]),
+            G([dict(key=1, modes={"1": [1, 0]}), dict(key=1, modes={"1": [1, 0]}), dict(key=1, modes={})]),
+            # strengthening round: a body ended by a KeyboardInterrupt inside a nested call, then both called again
+            G([dict(key=1, modes=kbd), dict(key=1, modes={}), dict(key=0, modes={})]),
+            G([dict(key=2, modes={"1": [1, 3]}), dict(key=1, modes={}), dict(key=2, modes={})]),          # SystemExit
+            G([dict(key=0, modes={"0": [0, 4]}), dict(key=0, modes={"0": [0, 4]}), dict(key=0, modes={})]),  # a test outcome, twice
+            G([dict(key=1, modes={"1": [1, 1]}), dict(key=1, modes={"1": [1, 1]}), dict(key=1, modes={})]),  # returns no Module
+            G([dict(key=2, modes={"0": [0, 5]}), dict(key=2, modes={}), dict(key=2, modes={})], unc=[1]),   # through an uncached generator
+            G([dict(key=1, modes={"1": [0, 6]}), dict(key=1, modes={})], unc=[1])]
 
 
 def c_gout(r, names):
     if "ok" in r:
         return f"(GOk {names.setdefault(r['ok'], len(names) + 1)})"
+    cls = r["err"]["cls"]
     m = re.search(r"body of G(\d+) raised", r["err"]["msg"])
-    if m:
-        return f"(GErr (GE {cn(int(m.group(1)))}))"
+    if m and cls in GEN_KIND_OF:
+        return f"(GErr (GE {cn(int(m.group(1)))} {cn(GEN_KIND_OF[cls])}))"
+    m = re.search(r"Generator Generator\(name=G(\d+)\) returned .*must return", r["err"]["msg"])
+    if m and cls == "RuntimeError":
+        return f"(GErr (GE {cn(int(m.group(1)))} {cn(1)}))"
     m = re.search(r"circular dependency in `GeneratorCall\(gen=Generator\(name=G(\d+)\)", r["err"]["msg"])
-    if m:
+    if m and cls == "RuntimeError":
         return f"(GErr (GCycle {cn(int(m.group(1)))}))"
     return "GOther"
 
@@ -412,15 +466,47 @@ def c_gcase(job, out, fresh):
     steps = []
     for k, st in enumerate(job["steps"]):
         r, f = out["steps"][k], fresh[k]
-        modes = clist(sorted((int(a), b) for a, b in st["modes"].items()), lambda e: f"({cn(e[0])}, Some {cn(e[1])})")
+        modes = clist(sorted((int(a), b) for a, b in st["modes"].items()), lambda e: f"({cn(e[0])}, Some ({cn(e[1][0])}, {cn(e[1][1])}))")
         steps.append(f"{{| g_key := {cn(st['key'])}; g_modes := {modes}; g_out := {c_gout(r, names)}; g_fresh := {c_gout(f, names)}; "
                      f"g_pend_empty := {cbool(r['pend'] == 0)}; g_stack_empty := {cbool(r['stack'] == 0)}; "
                      f"g_done := {clist(r['done'], cn)}; g_runs := {clist(sorted((int(a), b) for a, b in r['runs'].items()), lambda e: cpair(*e))} |}}")
     calls = clist(list(enumerate(job["gens"])), lambda e: f"({cn(e[0])}, {clist(e[1], cn)})")
-    return f"({calls}, {clist(steps)})"
+    return f"({calls}, {clist(job.get('uncached', []), cn)}, {clist(steps)})"
 
 
-def run_gen(run, stream, jobs):
+def gen_reach(gens, k):
+    seen, todo = set(), [k]
+    while todo:
+        x = todo.pop()
+        if x not in seen:
+            seen.add(x)
+            todo += gens[x]
+    return seen
+
+
+def gen_coverage(jobs, outs, cov):
+    """what the generator streams exercised (targets of the strengthening round; counted on the implementation's answers)"""
+    for j, o in zip(jobs, outs):
+        for i, (st, r) in enumerate(zip(j["steps"], o["steps"])):
+            if "err" not in r:
+                continue
+            m = re.search(r"body of G(\d+) raised", r["err"]["msg"])
+            later = [s["key"] for s in j["steps"][i + 1:]]
+            if m and r["err"]["cls"] in BASE_CLS:
+                # the calls that were in flight when the BaseException passed: the failing body and the callers above it
+                inflight = {k for k in gen_reach(j["gens"], st["key"]) if int(m.group(1)) in gen_reach(j["gens"], k)}
+                cov["gen_base_exception"] += 1
+                if any(k in inflight and k not in j.get("uncached", []) for k in later):
+                    cov["gen_base_exception_then_same_call_again"] += 1
+                if int(m.group(1)) != st["key"]:
+                    cov["gen_base_exception_through_nested_call"] += 1
+            if "returned" in r["err"]["msg"] and "must return" in r["err"]["msg"] and later:
+                cov["gen_non_module_result_then_more"] += 1
+            if m and int(m.group(1)) in j.get("uncached", []) and later:
+                cov["gen_uncached_body_failed_then_more"] += 1
+
+
+def run_gen(run, stream, jobs, cov=None):
     for j in jobs:
         for s in j["steps"]:
             s["op"] = "call"
@@ -428,21 +514,30 @@ def run_gen(run, stream, jobs):
     cases = [c_gcase(j, o, f) for j, o, f in zip(jobs, outs, fresh)]
     bad = core.coq_eval_cases("C08", stream.replace("-", "_"), IMPORTS, "gcase", cases, "run_cases chk_gen", chunk=100)
     raised = sum(1 for o in outs if any("err" in s for s in o["steps"][:-1]))
+    if cov is not None:
+        gen_coverage(jobs, outs, cov)
+    classes = {}
+    for o in outs:
+        for s_ in o["steps"]:
+            if "err" in s_:
+                classes[s_["err"]["cls"]] = classes.get(s_["err"]["cls"], 0) + 1
     run.stream(stream, len(jobs), len({json.dumps(j, sort_keys=True) for j, o in zip(jobs, outs) if any("err" in s for s in o["steps"][:-1])}),
                histories_with_a_raising_call_followed_by_more=raised, fresh_processes=nfresh, calls=sum(len(j["steps"]) for j in jobs),
+               failing_calls_by_exception_class=classes, histories_with_uncached_generators=sum(1 for j in jobs if j.get("uncached")),
                rule="non-trivial = some call before the last one raised (body or cycle); distinct by history")
     v1 = sorted([i for i, c in bad if c % 10 == 1], key=lambda i: len(jobs[i]["steps"]))
     v2 = sorted([i for i, c in bad if c % 10 == 2], key=lambda i: len(jobs[i]["steps"]))
     code = dict(bad)
     for i in v1[:2]:
         st = code[i] // 10 - 1
-        j = dict(gens=jobs[i]["gens"], steps=jobs[i]["steps"][:st + 1])
+        j = dict(gens=jobs[i]["gens"], uncached=jobs[i].get("uncached", []), steps=jobs[i]["steps"][:st + 1])
         run.violation("C08:gen:" + json.dumps(j, sort_keys=True),
-                      f"generator history {[(s['key'], s['modes']) for s in j['steps']]}: call #{st} gives {outs[i]['steps'][st].get('err') or outs[i]['steps'][st].get('ok')}"
+                      f"generator history {[(s['key'], s['modes']) for s in j['steps']]} (uncached: {j['uncached']}): call #{st} gives "
+                      f"{outs[i]['steps'][st].get('err') or outs[i]['steps'][st].get('ok')}"
                       f" (pending {outs[i]['steps'][st]['pend']}, stack {outs[i]['steps'][st]['stack']}); a fresh process gives "
                       f"{fresh[i][st].get('err') or fresh[i][st].get('ok')}",
-                      dict(kind="impl-violates-spec", stream=stream, gen_case=j, failing_call=st, impl=outs[i]["steps"][:st + 1],
-                           fresh=fresh[i][st], failing_cases=len(v1)))
+                      dict(kind="impl-violates-spec", stream=stream, gen_case=j, failing_call=st,
+                           impl=outs[i]["steps"][:st + 1], fresh=fresh[i][st], failing_cases=len(v1)))
     if v2 and not v1:
         i = v2[0]
         run.violation(f"C08:{stream}:tie", f"generator-cache model and implementation differ at call #{code[i] // 10 - 1}",
@@ -453,7 +548,6 @@ def run_gen(run, stream, jobs):
 
 # ------------------------------------------------------------------------------------------ run
 def corpus_items():
-    r = core.rng(0, "C08", "corpus", 0)
     items = []
     # DESIGN 7 #10: a module with a missing connection elaborated twice
     items.append(mk_history(core.rng(0, "C08", "corpus", 1), "fault", ["retry"], bad=BAD, param="missing"))
@@ -466,11 +560,76 @@ def corpus_items():
     items.append(mk_history(core.rng(0, "C08", "corpus", 7), "fault", ["retry"], bad=MID, param="cycle"))
     items.append(mk_history(core.rng(0, "C08", "corpus", 8), "fault", ["unrelated", "share"], bad=TOP, param="width"))
     items.append(mk_history(core.rng(0, "C08", "corpus", 9), "fault", ["repair", "retry_default"], bad=BAD, param="unnamed"))
+    # strengthening round
+    # (b) a rewriting pass ended part-way by a KeyboardInterrupt, then a retry without the injection (fix C08-3)
+    items.append(mk_history(core.rng(0, "C08", "corpus", 10), "half", ["retry_default"], bad=BAD, param=("ArrayFlattener", 1), exc="kbd"))
+    items.append(mk_history(core.rng(0, "C08", "corpus", 11), "half", ["retry", "share_bad"], bad=L0, param=("BundleFlattener", 1), exc="outcome"))
+    # (a) the module with the missing connection is built anew and its parents pointed there, then the retry (fix C08-4):
+    #     the passes before ConnTypes are done with the parents, the new module has port references to be resolved
+    for k, (bad, fault, cont) in enumerate([(BAD, "missing", ["retarget", "retry_default"]),
+                                             (L0, "arrwidth", ["retarget", "retry_default", "share_bad"]),
+                                             (BAD, "width", ["retarget_one", "retry", "share_bad"])]):
+        job, meta, info = mk_history(core.rng(0, "C08", "corpus", 12 + k), "fault", cont, bad=bad, param=fault)
+        for i in (bad, NEW):
+            for ft in ("ref", "bun", "arrp"):
+                if ft not in job["mods"][i]["feats"]:
+                    job["mods"][i]["feats"].append(ft)
+        items.append((job, meta, info))
+    # a parent built around the failed module afterwards is refused untouched; re-targeted, it is elaborated as in a fresh process
+    items.append(mk_history(core.rng(0, "C08", "corpus", 15), "fault", ["share_bad", "retarget", "share_bad", "retry_default"], bad=BAD, param="arrwidth"))
+    items.append(mk_history(core.rng(0, "C08", "corpus", 16), "raiser", ["share_bad_elab", "retarget", "share_bad", "new_top"], bad=BAD, param=(6, True), exc="exit"))
+    # KNOWN FINDING (tools/findings/C08.json): the failed call leaves the healthy modules of its design completed by the
+    # passes before the failing one, and - unlike after a successful elaboration - still open to additions, which those
+    # passes never see.  The witness stays here so that any change of this behaviour shows.
+    items.append(mk_history(core.rng(0, "C08", "corpus", 17), "fault", ["edit_sibling"], bad=BAD, param="missing"))
     return items
 
 
 def nontrivial(item, out):
     return first_failed(out) and sum(1 for s in item[0]["steps"] if s["op"] == "call") >= 2
+
+
+# what the strengthening round added to the histories; each is counted on the implementation's answers and must be > 0
+TARGETS = {
+    "base_exception_in_pass_body": "histories whose first call was ended by a BaseException that is no Exception raised in a pass body, followed by more calls",
+    "base_exception_part_way_through_rewriting_pass": "... of these: raised part-way through a rewriting pass (module really half-rewritten)",
+    "retarget_of_parent_with_completed_passes": "accepted re-targetings of a parent that some pass classes had already completed (observation (a)), followed by a call that reached it",
+    "retarget_of_untouched_parent_after_refusal": "accepted re-targetings of a parent that had been refused once and no pass had completed (a parent built after the failure)",
+    "package_returned_after_retarget": "calls after a re-targeting that returned a package (compared with the fresh process)",
+    "recreated_module_elaborated_alone": "calls that elaborate the re-created module on its own",
+    "gen_base_exception": "generator calls ended by a BaseException that is no Exception",
+    "gen_base_exception_then_same_call_again": "... followed by a later call of a cached generator call that was in flight at the time",
+    "gen_base_exception_through_nested_call": "... raised in a nested generator call",
+    "gen_non_module_result_then_more": "generator bodies returning no Module, followed by more calls",
+    "gen_uncached_body_failed_then_more": "failing bodies of generators declared with enable_cache=False, followed by more calls",
+}
+
+
+def module_coverage(items, outs, cov):
+    for (job, meta, info), out in zip(items, outs):
+        st0 = out["steps"][0]
+        calls = [k for k, s_ in enumerate(job["steps"]) if s_["op"] == "call"]
+        if "err" in st0 and st0["err"]["cls"] in BASE_CLS and len(calls) >= 2:
+            cov["base_exception_in_pass_body"] += 1
+            if info["kind"] == "half":
+                cov["base_exception_part_way_through_rewriting_pass"] += 1
+        seen_rt = False
+        refused = set()          # tops of calls that failed so far
+        for k, (st, r) in enumerate(zip(job["steps"], out["steps"])):
+            if st["op"] == "call":
+                if "err" in r:
+                    refused.update(st["tops"])
+                if seen_rt and r.get("ok"):
+                    cov["package_returned_after_retarget"] += 1
+                if st["tops"] == [NEW]:
+                    cov["recreated_module_elaborated_alone"] += 1
+            elif st.get("what") == "retarget" and r.get("edit") == "ok":
+                seen_rt = True
+                later = [s2 for s2 in job["steps"][k + 1:] if s2["op"] == "call" and any(contains(job["mods"], t, st["mod"]) for t in s2["tops"])]
+                if r["levels"] > 0 and later:
+                    cov["retarget_of_parent_with_completed_passes"] += 1
+                if r["levels"] == 0 and st["mod"] in refused:
+                    cov["retarget_of_untouched_parent_after_refusal"] += 1
 
 
 def run(run, tier, seed, replay=None):
@@ -495,20 +654,24 @@ def run(run, tier, seed, replay=None):
         return
 
     total = 0
+    cov = {k: 0 for k in TARGETS}
 
     def do_stream(name, items, **extra):
         nonlocal total
         outs, fresh, res, nfresh = evaluate(name[:6].replace("-", ""), static, items)
+        module_coverage(items, outs, cov)
         nt = {json.dumps(it[0], sort_keys=True) for it, o in zip(items, outs) if nontrivial(it, o)}
         per = {}
         for it, o in zip(items, outs):
-            k = it[2]["kind"] + ("/" + it[2]["fault"] if it[2].get("fault") else "")
+            k = it[2]["kind"] + ("/" + it[2]["fault"] if it[2].get("fault") else "") + ("/" + it[2]["exc"] if it[2].get("exc", "exc") != "exc" else "")
             e = per.setdefault(k, dict(histories=0, first_call_failed=0))
             e["histories"] += 1
             e["first_call_failed"] += first_failed(o)
         run.stream(name, len(items), len(nt), fresh_processes=nfresh, calls=sum(len([s for s in it[0]["steps"] if s["op"] == "call"]) for it in items),
                    per_kind=per, injections_not_triggered=sum(1 for it in items if it[2].get("not_triggered")),
                    first_call_did_not_fail=sum(1 for o in outs if not first_failed(o)),
+                   retarget_edits=dict(accepted=sum(1 for o in outs for s_ in o["steps"] if s_ and s_.get("edit") == "ok" and "n" in s_ and s_["n"]),
+                                       nothing_to_retarget=sum(1 for o in outs for s_ in o["steps"] if s_ and s_.get("edit") == "noop")),
                    rule="non-trivial = the first call fails in the implementation and at least one call follows; distinct by history", **extra)
         report(run, name, items, outs, fresh, res, keep_order=(name == "corpus"))
         total += len(items)
@@ -522,44 +685,61 @@ def run(run, tier, seed, replay=None):
     # ---------------------------------------------------------------- exhaustive-small: every (pass position, module) x continuation
     items = []
     k = 0
-    conts = CONTS if not quick else [["retry", "retry_export"], ["retry_default", "share"], ["unrelated", "share_bad"]]
+    conts = CONTS if not quick else [["retry", "retry_export"], ["retry_default", "share"], ["unrelated", "share_bad"],
+                                     ["retarget", "retry_default", "share_bad"], ["share_bad", "retarget", "share_bad", "retry_export"],
+                                     ["retarget_one", "retry", "share_bad_elab", "new_top"]]
+    excs = ["exc", "kbd", "exc", "exit", "exc", "outcome", "exc", "cancel", "genexit"]
     for bad in (L0, BAD, TOP):
         for at in range(11):
             for rewrites in (True, False):
-                for cont in (conts if not quick else [conts[(at + bad + rewrites) % len(conts)]]):
-                    items.append(mk_history(core.rng(seed, "C08", "exh-raiser", k), "raiser", cont, bad=bad, param=(at, rewrites)))
+                for cont in (conts if not quick else [conts[k % len(conts)]]):
+                    items.append(mk_history(core.rng(seed, "C08", "exh-raiser", k), "raiser", cont, bad=bad, param=(at, rewrites),
+                                            exc=excs[(k // (1 if quick else len(conts))) % len(excs)]))
                     k += 1
     for bad in (L0, BAD, TOP):
         for base in sorted(HALF_BASES):
             for kk in (1, 2):
-                for cont in (conts if not quick else [conts[(kk + bad) % len(conts)], ["retry_default"]]):
-                    items.append(mk_history(core.rng(seed, "C08", "exh-half", k), "half", cont, bad=bad, param=(base, kk)))
+                for cont in (conts if not quick else [conts[k % len(conts)], ["retry_default"]]):
+                    items.append(mk_history(core.rng(seed, "C08", "exh-half", k), "half", cont, bad=bad, param=(base, kk),
+                                            exc=excs[(k + (k // len(excs))) % len(excs)]))
                     k += 1
     for bad in (L0, BAD, TOP):
         for fault in sorted(FAULTS):
-            for cont in (conts + [["repair", "retry_default"]] if not quick else [conts[(bad + len(fault)) % len(conts)], ["repair", "retry_default"]]):
+            for cont in (conts + [["repair", "retry_default"]] if not quick else [conts[k % len(conts)], RT_CONTS[k % len(RT_CONTS)]]):
                 items.append(mk_history(core.rng(seed, "C08", "exh-fault", k), "fault", cont, bad=bad, param=fault))
                 k += 1
     outs = do_stream("exhaustive-positions", items, exhaustive=True,
                      box="raising pass at each of the 11 positions of the default list x {rewriting, checking} x module in {leaf, middle, top}; "
-                         "each of 4 rewriting passes interrupted at its 1st/2nd flatname call; each of 8 design-fault classes; x continuations")
+                         "each of 4 rewriting passes interrupted at its 1st/2nd flatname call; each of 8 design-fault classes; "
+                         "what is raised rotates over RuntimeError and 5 BaseExceptions that are no Exception; x continuations "
+                         "(retry, other entry point, default list, in-place repair, re-creation + re-targeting of all / one parent, "
+                         "unrelated and sharing designs, the re-created module alone)")
     run.sample(dict(stream="exhaustive-positions", info=items[5][2], steps=[s.get("err") or s.get("ok") or s.get("edit") for s in outs[5]["steps"]]))
 
     # ---------------------------------------------------------------- structured random histories
-    n = 60 if quick else 1500
+    n = 70 if quick else 1500
     items = []
     for k in range(n):
         r = core.rng(seed, "C08", "random", k)
         kind = r.choice(["raiser", "half", "fault", "fault"])
-        cont = [r.choice(["retry", "retry_export", "retry_default", "repair", "unrelated", "share", "share_bad", "both", "leafs"])
+        cont = [r.choice(["retry", "retry_export", "retry_default", "repair", "unrelated", "share", "share_bad", "both", "leafs",
+                          "retarget", "retarget", "retarget_one", "new_top", "share_bad_elab"])
                 for _ in range(r.randint(1, 5))]
-        items.append(mk_history(r, kind, cont))
+        items.append(mk_history(r, kind, cont, exc=r.choice(["exc", "exc", "exc", "kbd", "exit", "outcome", "cancel", "genexit"])))
     outs = do_stream("random-histories", items)
     run.sample(dict(stream="random-histories", info=items[1][2], steps=[s.get("err") or s.get("ok") or s.get("edit") for s in outs[1]["steps"]]))
 
     # ---------------------------------------------------------------- generators
-    run_gen(run, "generator-corpus", gen_corpus())
-    gj = gen_jobs(core.rng(seed, "C08", "gen", 0), 40 if quick else 1500, 5 if quick else 8)
-    gouts = run_gen(run, "generator-random", gj)
+    run_gen(run, "generator-corpus", gen_corpus(), cov)
+    gj = gen_jobs(core.rng(seed, "C08", "gen", 0), 60 if quick else 1500, 5 if quick else 8)
+    gouts = run_gen(run, "generator-random", gj, cov)
     run.sample(dict(stream="generator-random", case=gj[0], outcomes=[s.get("err", {}).get("msg") or s.get("ok") for s in gouts[0]["steps"]]))
     run.coverage["traces_validated_against_impl"] = total + len(gj) + len(gen_corpus())
+    # the targets of the strengthening round: measured, and the run fails closed when one was not reached
+    run.coverage["strengthening_targets"] = {k: dict(count=cov[k], what=TARGETS[k]) for k in TARGETS}
+    missed = sorted(k for k in TARGETS if cov[k] == 0)
+    if missed:
+        run.violation("C08:coverage-target-missed:" + ",".join(missed),
+                      "the histories of this run never exercised: " + "; ".join(f"{k} ({TARGETS[k]})" for k in missed),
+                      dict(kind="coverage-target-missed", missed=missed, counts=cov, theorem="C08 coverage targets of the strengthening round"),
+                      found_input=False)
